@@ -20,7 +20,7 @@ BOUNDS = {
     "outside": "kernel-level durability and real mmap coherence; interruption points between two Python statements that have no file effect (they are equivalent to the preceding effect index); more than one reopen cycle",
 }
 EXPECT_LABELS = {"quick": ["snapshot-wellformed", "completed-keys-present", "count-lag<=1", "count-never-ahead-of-bits", "after-return-current",
-                           "closed-file-is-memory-export", "reopen-keys", "export-copy-identical", "setops-disk-operand", "queries-leave-file"]}
+                           "closed-file-is-memory-export", "reopen-keys", "export-copy-identical", "setops-disk-operand", "queries-leave-file", "export-leaves-own-file"]}
 
 
 def _open(ctx, cfg, name="x.blm"):
